@@ -111,12 +111,11 @@ fn flags_ok(flags: &str, s: &str) -> bool {
         }
     }
     if flags.contains("f23") {
-        // documented: "Days field: Required only for NOTICE" — two digits after the function code are the days and are
-        // only allowed for the function code NOT(ICE), 1..99
+        // two digits after the three letters are the number of days (1..99) and a reference must follow
         let b: Vec<char> = s.chars().collect();
         if b.len() >= 5 && b[3].is_ascii_digit() && b[4].is_ascii_digit() {
             let days = b[3].to_digit(10).unwrap() * 10 + b[4].to_digit(10).unwrap();
-            if &s[..3] != "NOT" || days == 0 || b.len() < 6 {
+            if days == 0 || b.len() < 6 {
                 return false;
             }
         }
